@@ -179,7 +179,8 @@ Proof. exact canon_key_any_casing. Qed.
 Print Assumptions C15_header_names_any_casing.
 
 (** THE WHOLE STATEMENT: for a tree with the repairs that are in /repo (and
-    possibly those of C15-F6 / -F7), every request (any bytes), every pipeline
+    possibly those of C15-F6 / -F7), every request (any bytes; [oracle_ok]: not
+    C15-F9, a trusted X-Forwarded-Uri that is no valid encoded path), every pipeline
     output and every rule / rewrite configuration on which none of the open
     findings shows: what is forwarded (or that nothing is) satisfies every
     sentence of the property ([spec_ok], C15/Spec.v — a predicate on the
@@ -245,6 +246,12 @@ Theorem C15_F7_refuted : exists q pl r,
   forwarded_field "X-Forwarded-For" (serve repaired2 q pl r) = ["10.0.0.1, 10.0.0.2, 127.0.0.2"].
 Proof. exact F7_refuted. Qed.
 Print Assumptions C15_F7_refuted.
+
+Theorem C15_F9_refuted : exists q pl r,
+  guard_F9 q = true /\ spec_ok q pl r (serve repaired2 q pl r) = false /\
+  option_map u_rawpath (view_url q) = Some "/%zz" /\ forwarded_uri (serve repaired2 q pl r) = "/".
+Proof. exact F9_refuted. Qed.
+Print Assumptions C15_F9_refuted.
 
 (** C15-F8 is outside the model; the witness is an observation of the assembled application *)
 Theorem C15_F8_observed_refuted : exists q pl r o,
